@@ -257,7 +257,7 @@ def rep_attrs(rep, p):
     if t == "inf":
         return None, False, "inf"
     if t == "lib":
-        return None, rep[2] in (3, 5), "lib"
+        return None, rep[2] in (3, 5), ("aff" if rep[2] == 6 else "lib")
     return 1, t == "au", "aff"
 
 
@@ -497,11 +497,9 @@ def bulk_small_unary(tier, shard, nshards, rec, rng):
                 evals += 1
                 nt += 1 if (z != 1 or ur) else 0
                 rec.cls("small.unary." + op)
-            if rep[0] in ("au",) or kind == "lib" and rep[2] == 6:
-                continue  # == of affine Points compares raw coordinates; not judged for unreduced ones
+            if rep[0] == "au":
+                continue  # == of affine Points compares raw coordinates; not judged for the unreduced form
             for repB in eqB:
-                if rep[0] in ("a", "an") and repB[0] == "a" and False:
-                    continue
                 case = dict(cv=key, op="eq", A=rep, B=repB)
                 try:
                     r = judge(lambda: small_run(S, case), small_want(S, case), lambda: small_describe(S, case))
@@ -591,25 +589,27 @@ def bulk_small_mul(tier, shard, nshards, rec, rng):
     return None
 
 
-def muladd_cases(S, rng):
-    """Deterministic list of mul_add cases: grid1 = all (k1,k2) in 0..n+1 on an operand sub-grid; grid2 = all operand points in a few
-    representations on a scalar sub-grid."""
+def muladd_cases(S, rng, shard, nshards):
+    """Deterministic stream of mul_add cases (identical in every shard; only this shard's share is materialised):
+    grid 1 = all (k1,k2) in 0..n+1 on an operand sub-grid; grid 2 = all operand points in a few representations on a scalar sub-grid."""
     n, p = S.n, S.p
     key = (S.p, S.a, S.b)
     z0 = 2 + (n % (p - 2))  # some scaling != 1
     if z0 >= p:
         z0 = 2
-    out = []
+    idx = 0
     # grid 1
     A_list = [(("j", 1, 1, 0), "ord"), (("j", 1, 1, 0), "tab"), (("j", 1, z0, 0), "ord"), (("j", 1, 1, 1), "ord"), (("j", 3, 1, 0), "noord")]
-    b_pts = sorted({1, 2, n - 1, n - 2, (n + 1) // 2, 3, 5 % n or 1})
+    b_pts = sorted({1, 2, n - 1, n - 2, (n + 1) // 2, 3, 5})
     for A, mA in A_list:
         for i in b_pts:
             for B, mB in ((("j", i, 1, 0), "ord"), (("j", i, z0, 0), "ord"), (("j", i, 1, 1), "ord"), (("a", i), "ord"), (("j", i, 1, 0), "tab"),
                           (("lib", i, 0), "ord")):
                 for k1 in range(0, n + 2):
                     for k2 in range(0, n + 2):
-                        out.append(dict(cv=key, op="mul_add", A=A, mode=mA, B=B, modeB=mB, k1=k1, k2=k2, grid=1))
+                        if idx % nshards == shard:
+                            yield dict(cv=key, op="mul_add", A=A, mode=mA, B=B, modeB=mB, k1=k1, k2=k2), 1
+                        idx += 1
     # grid 2
     fixed = [(1, 1), (n - 1, 1), (1, n - 1), (2, n - 2), (n, 3), (3, n), (n + 1, n + 1), (0, 5), (5, 0), (2 * n - 1, n + 2)]
     for i in range(1, n):
@@ -622,12 +622,14 @@ def muladd_cases(S, rng):
                     ks = fixed[(i + j) % len(fixed):][:2] + [(rng.randrange(0, 2 * n + 1), rng.randrange(0, 2 * n + 1)) for _ in range(2)]
                     # one pair chosen so that the sum is infinity: k1*i + k2*j = 0 mod n
                     k2 = rng.randrange(1, n)
-                    k1 = (-k2 * j * ecref.inv(i, n)) % n
-                    ks.append((k1, k2))
+                    ks.append(((-k2 * j * ecref.inv(i, n)) % n, k2))
                     for k1, k2 in ks:
-                        out.append(dict(cv=key, op="mul_add", A=A, mode=mA, B=B, modeB=mB, k1=k1, k2=k2, grid=2))
-        out.append(dict(cv=key, op="mul_add", A=("j", i, 1, 0), mode="ord", B=("inf",), modeB="ord", k1=i, k2=3, grid=2))
-    return out
+                        if idx % nshards == shard:
+                            yield dict(cv=key, op="mul_add", A=A, mode=mA, B=B, modeB=mB, k1=k1, k2=k2), 2
+                        idx += 1
+        if idx % nshards == shard:
+            yield dict(cv=key, op="mul_add", A=("j", i, 1, 0), mode="ord", B=("inf",), modeB="ord", k1=i, k2=3), 2
+        idx += 1
 
 
 def bulk_small_muladd(tier, shard, nshards, rec, rng):
@@ -636,13 +638,9 @@ def bulk_small_muladd(tier, shard, nshards, rec, rng):
     for key in small_curve_keys(tier):
         S = SmallCtx.get(key)
         C, p, n = S.C, S.p, S.n
-        cases = muladd_cases(S, random.Random(1000 * key[0] + key[1]))  # same list in every shard
         evals = nt = 0
-        for idx, case in enumerate(cases):
-            if idx % nshards != shard:
-                continue
-            case = {k: v for k, v in case.items()}
-            grid = case.pop("grid")
+        sample = None
+        for case, grid in muladd_cases(S, random.Random(1000 * key[0] + key[1]), shard, nshards):
             ia, ib = rep_index(case["A"]), rep_index(case["B"])
             e = C.pts[(ia * case["k1"] + ib * case["k2"]) % n]
             try:
@@ -671,7 +669,9 @@ def bulk_small_muladd(tier, shard, nshards, rec, rng):
                 rec.cls("small.muladd.both-table")
             if ia == ib or (ia + ib) % n == 0:
                 rec.cls("small.muladd.operands-equal-or-inverse")
-        rec.bulk("small_muladd", evals, nt, sample=cases[shard] if cases else None)
+            if sample is None:
+                sample = case
+        rec.bulk("small_muladd", evals, nt, sample=sample)
     return None
 
 
@@ -792,8 +792,6 @@ class RealCtx(object):
             bad.append("generator")
         if c.openssl_name != OSSL_NAME[self.name]:
             bad.append("openssl_name")
-        if c.curve.cofactor() != 1:
-            bad.append("cofactor")
         return bad
 
     def point(self, k0):
@@ -1407,6 +1405,8 @@ def present(R, entry, x, y, data=None, point=None, zseed=0, foreign=None):
                 if form == "jac":
                     point = PointJacobi(R.cv, x, y, 1, R.n)
                 elif form == "jacz":
+                    if not (0 <= x < p and 0 <= y < p):
+                        return "n/a"  # scaling reduces mod p: an out-of-range coordinate has no Jacobian form
                     z = 2 + zseed % (p - 2)
                     point = PointJacobi(R.cv, x * z * z % p, y * z * z * z % p, z, R.n)
                 else:
@@ -1453,7 +1453,7 @@ def check_invalid(case, rec):
             return
         else:
             L = R.L
-            datas = [b"\x00", b"", bytes(2 * L), b"\x04" + bytes(2 * L), b"\x02" + bytes(L), b"\x00" * (L + 1)]
+            datas = [b"\x00", b"", bytes(2 * L), b"\x04" + bytes(2 * L), b"\x00" + bytes(2 * L), b"\x00" * (L + 1)]
             if ecref.on_curve(R.p, R.a, R.b, (0, 0)):
                 return
             acc = present(R, entry, 0, 0, data=datas[sub], zseed=zseed)
